@@ -205,6 +205,7 @@ func init() {
 		fr.i.clockAdvance(fr, a[0])
 		return nil
 	})
+	reg("Perturb", func(fr *frame, a []value) value { return nil })
 	reg("Yield", func(fr *frame, a []value) value {
 		fr.i.sched.yield(fr)
 		return nil
